@@ -3,6 +3,7 @@ package asm
 import (
 	"fmt"
 	"strconv"
+	"strings"
 
 	"github.com/llir/ll/ast"
 	asmenum "github.com/llir/llvm/asm/enum"
@@ -536,7 +537,13 @@ func (gen *generator) irDIEnumerator(new metadata.SpecializedNode, old *ast.DIEn
 		case *ast.ValueIntField:
 			if isUnsigned {
 				text := oldField.Value().Text()
-				x, err := strconv.ParseUint(text, 10, 64)
+				base := 10
+				// unsigned hexadecimal integer literal
+				if strings.HasPrefix(text, "u0x") {
+					text = text[len("u0x"):]
+					base = 16
+				}
+				x, err := strconv.ParseUint(text, base, 64)
 				if err != nil {
 					panic(fmt.Errorf("unable to parse unsigned integer literal %q; %v", text, err))
 				}
